@@ -223,6 +223,11 @@ def gen_bad_request(rng, cfg, nwatch):
                   'start': rng.random() < 0.5})
         if rng.random() < 0.5:
             p['options'] = dict(rng.sample(VALID_OPTS, 2))
+        elif rng.random() < 0.4:
+            # ... or a name no event topic can be built from (legal JSON,
+            # no UTF-8 form), in a request without an options member
+            op['defect'] = 'unencodable_name'
+            p['name'] = rng.choice(['caf\ud800', '\udc80x'])
     elif kind == 'odd_valid':
         # well-typed values nobody checks the range of (accepted today): if
         # a request carrying one is refused, then before anything is applied
